@@ -12,9 +12,11 @@ The Lean model is lean/ThermoVerif/Model/Phases.lean, the driver lean/Driver/C12
 Protocol (one op per line; streams are numbered in creation order; the answer is the canonical state of every
 stream and of every phase view handed out so far, prefixed by `err=<Class> ` when the op raised):
 
+  chems <n>               (optional first line) the case uses the first n of (Water, Ethanol, Octane, Glycerol); default 3
   new S <phase> <T> <P> <f0,f1,f2>                 a single-phase Stream            (becomes stream #next)
   new M <p1,p2,..> <T> <P> <p:f0,f1,f2;...|->       a MultiStream
-  sphases <k> <p1,p2,..>  s_k.phases = (...)         sphase <k> <letters|->   s_k.phase = '...'
+  sphases <k> <p1,p2,..> [tuple|list|set|str|gen]   s_k.phases = that container of the labels (duplicates allowed)
+  sphase <k> <letters|->  s_k.phase = '...'
   reduce|asstream|vle|lle|sle|empty <k>              the method / accessor of that name
   view <k> <p>            s_k[p]                     (registers a handle h<n> when a new view object appears)
   wview <h> <i> <x>       h.imol[chem_i] = x         wpar <k> <p|-> <i> <x>   s_k.imol[p, chem_i] = x
@@ -42,6 +44,8 @@ Property oracle (real objects only), failure signatures:
                                          the other, T/P likewise, molar and mass accessor; every probe is undone)
   stale-view/shared-dict                 the same for a stream whose `_streams` dict is shared with another stream
                                          (a proxy after one of the two re-seated its data)
+  stale-solver[:<op>]                    the VLE/LLE/SLE cache (or the solver an accessor returned) of a MultiStream is not
+                                         bound to the stream's current indexer / thermal condition / package
   restore/raises, restore/mismatch       set_data of a snapshot raised / did not reproduce what get_data saw
   <op>/contents-changed                  view, save, T/P writes, a (refused) view.phase assignment, unlink or
                                          _reset_thermo changed flows/phases (unlink, thermo: also T, P)
@@ -62,15 +66,19 @@ LEAN_MODULES = ['ThermoVerif.Props.C12']
 RULE = ('histories of up to 30 operations (phases/phase setters, reduce_phases, as_stream, vle/lle/sle accessors, '
         'phase views, writes through views and parents, T/P writes, get_data/set_data, unlink, link_with, copy_like, '
         'mix_from, _reset_thermo, proxy) on a universe of 2-5 real Stream/MultiStream objects over '
-        '(Water, Ethanol, Octane) with dyadic flows over subsets of the phases s,l,g,S,L; generated adaptively on '
+        'the first 2-4 of (Water, Ethanol, Octane, Glycerol) with signed dyadic flows (negative entries, exactly '
+        'cancelling rows and totals included) over subsets of the phases s,l,g,S,L; phases= is given tuples, lists, sets, '
+        'strings and generators with duplicates; generated adaptively on '
         'the real objects so that ~85% of conversions target a phase set that contains every non-empty phase up to '
         'case; a case is non-trivial when a conversion changed type(stream) or its phase tuple while material was '
         'present, or a data-re-seating operation ran on a MultiStream that had cached views; distinct = distinct op '
         'sequences')
 ASSUMPTIONS = [
     'a SparseVector row is modelled by its dense image (a list of rationals); Python object identity by store ids',
-    'flows are non-negative dyadic rationals, so every sum the code performs is exact in binary64 (exact comparison)',
-    'the equilibrium solver objects returned by vle/lle/sle are not modelled (only the phase-set extension of the accessor)',
+    'flows are signed dyadic rationals, so every sum the code performs is exact in binary64 (exact comparison)',
+    'the equilibrium solver objects returned by vle/lle/sle are not in the Lean model (only the phase-set extension of the '
+    'accessor); their binding to the stream (indexer, thermal condition, package) is checked by the oracle on the real '
+    'objects after every operation (signature stale-solver): decided by oracle, not by proof',
     'link_with is modelled between MultiStreams (over the same phase tuple when flows are linked); outside the model '
     '(never generated): linking single-phase streams or a stream that has a proxy, growing the phases of an indexer '
     'whose rows are linked to another indexer or under a cached case-alias key, _reset_thermo of a stream that has '
@@ -84,9 +92,11 @@ TRUSTED = ['Lean 4.33 kernel', 'correspondence harness harness/props/c12.py + Dr
 EXHAUSTIVE = {'quick': False, 'thorough': False}
 
 tmo = None
+ALL_CHEMS = ['Water', 'Ethanol', 'Octane', 'Glycerol']
+THERMOS_BY_N = {}       # n -> three property packages over the first n chemicals (same order)
+CHEMS = ALL_CHEMS[:3]  # chemicals of the case being run (set by `chems n`)
 THERMOS = []
-CHEMS = ['Water', 'Ethanol', 'Octane']
-N = len(CHEMS)
+N = 3
 PHASES = ['L', 'S', 'g', 'l', 's']          # ASCII order = phase_tuple order
 CONVERSIONS = ('sphases', 'sphase', 'reduce', 'asstream', 'vle', 'lle', 'sle')
 RESEATING = ('unlink', 'link', 'copylike', 'mix', 'thermo', 'proxy')
@@ -97,14 +107,22 @@ def setup():
     import thermosteam as tmo_
     tmo = tmo_
     warnings.simplefilter('ignore')
-    tmo.settings.set_thermo(CHEMS, cache=True)
-    th0 = tmo.settings.get_thermo()
-    THERMOS[:] = [th0, tmo.Thermo(tmo.Chemicals(CHEMS)), tmo.Thermo(tmo.Chemicals(CHEMS))]
+    for n in (2, 3, 4):
+        THERMOS_BY_N[n] = [tmo.Thermo(tmo.Chemicals(ALL_CHEMS[:n], cache=True)) for _ in range(3)]
+    use_chems(3)
+
+
+def use_chems(n):
+    global CHEMS, N
+    CHEMS = ALL_CHEMS[:n]
+    N = n
+    THERMOS[:] = THERMOS_BY_N[n]
+    tmo.settings.set_thermo(THERMOS[0])
 
 
 def budget(tier):
     return {'quick': dict(seconds=45, cases=2400, shrink_s=15, search_s=10),
-            'thorough': dict(seconds=420, cases=120000, shrink_s=40, search_s=30)}[tier]
+            'thorough': dict(seconds=420, cases=90000, shrink_s=40, search_s=30)}[tier]
 
 
 def swap(p):
@@ -152,6 +170,8 @@ class Universe:
         self.handles = []
         self.snaps = []
         self.snap_obs = []
+        self.solver = None          # what the last vle/lle/sle accessor returned
+        use_chems(3)
 
     # ---- observation (real objects only) ---------------------------------------
     def kind(self, k):
@@ -237,6 +257,11 @@ class Universe:
         t = line.split(' ')
         op = t[0]
         S = self.S
+        self.solver = None
+        if op == 'chems':
+            if S: raise ValueError('chems after the first stream')
+            use_chems(int(t[1]))
+            return
         if op == 'new':
             T, P = float(Fraction(t[3])), float(Fraction(t[4]))
             if t[1] == 'S':
@@ -260,7 +285,14 @@ class Universe:
             return
         s = S[int(t[1])]
         if op == 'sphases':
-            s.phases = tuple(t[2].split(','))
+            labels = t[2].split(',')
+            form = t[3] if len(t) > 3 else 'tuple'
+            if form == 'tuple': s.phases = tuple(labels)
+            elif form == 'list': s.phases = list(labels)
+            elif form == 'set': s.phases = set(labels)
+            elif form == 'str': s.phases = ''.join(labels)
+            elif form == 'gen': s.phases = (x for x in labels)
+            else: raise ValueError('unknown container ' + form)
         elif op == 'sphase':
             s.phase = '' if t[2] == '-' else t[2]
         elif op == 'reduce':
@@ -268,11 +300,11 @@ class Universe:
         elif op == 'asstream':
             s.as_stream()
         elif op == 'vle':
-            s.vle
+            self.solver = s.vle
         elif op == 'lle':
-            s.lle
+            self.solver = s.lle
         elif op == 'sle':
-            s.sle
+            self.solver = s.sle
         elif op == 'empty':
             s.empty()
         elif op == 'view':
@@ -418,7 +450,7 @@ class Universe:
                 out.append(('proxy/mismatch', f'after `{line}` the proxy shows {post_all[-1]}, the original {post} (before {pre})'))
         return out
 
-    def probe_views(self, k):
+    def probe_views(self, k, ci=0):
         """Every cached phase view must be live: same numbers as the parent's row for that phase, writes through
         either side visible on the other, shared T and P.  Probes write and undo (exact)."""
         s = self.S[k]
@@ -426,7 +458,7 @@ class Universe:
         for p in sorted(s._streams):
             v = s._streams[p]
             try:
-                c = CHEMS[0]
+                c = CHEMS[ci % N]
                 old = float(s.imol[p, c])
             except Exception as e:
                 return f"cached view {p!r} has no row in the parent any more ({type(e).__name__})"
@@ -470,6 +502,26 @@ class Universe:
                 pass
         return None
 
+    def probe_solvers(self, k, accessor_result=None):
+        """The equilibrium caches of a MultiStream (and the solver an accessor just returned) must be bound to the
+        stream's CURRENT indexer, thermal condition and package; otherwise vle()/lle()/sle() work on detached data."""
+        s = self.S[k]
+        if type(s) is not tmo.MultiStream: return None
+        want = (s._imol, s._thermal_condition, s._thermo)
+        names = ('indexer', 'thermal condition', 'property package')
+        for cname in ('_vle_cache', '_lle_cache', '_sle_cache'):
+            c = getattr(s, cname, None)
+            if c is None: return f'{cname} is missing'
+            for a, b, n in zip(c.args, want, names):
+                if a is not b: return f'{cname} is bound to another {n} than the stream'
+            v = c.value
+            if v is not None and (v._imol is not s._imol or v._thermal_condition is not s._thermal_condition):
+                return f'the solver held by {cname} works on another indexer / thermal condition than the stream'
+        v = accessor_result
+        if v is not None and (v._imol is not s._imol or v._thermal_condition is not s._thermal_condition):
+            return 'the solver returned by the accessor works on another indexer / thermal condition than the stream'
+        return None
+
     def dict_shared(self, k):
         d = getattr(self.S[k], '_streams', None)
         return d is not None and any(getattr(o, '_streams', None) is d for j, o in enumerate(self.S) if j != k)
@@ -481,7 +533,7 @@ def opkind(line):
 
 def optarget(line):
     t = line.split(' ')
-    if t[0] in ('new', 'wview', 'wvT', 'wvP', 'vphase'): return None
+    if t[0] in ('new', 'chems', 'wview', 'wvT', 'wvP', 'vphase'): return None
     try: return int(t[1])
     except Exception: return None
 
@@ -491,10 +543,17 @@ def run_ops(ops):
     outs, failures, dead = [], [], False
     interesting = False
     stale_reported = False
+    solver_reported = False
     for i, line in enumerate(ops):
         if dead:
             outs.append('dead'); continue
         op = opkind(line)
+        if op == 'chems':
+            try:
+                U.apply(line); outs.append('chems=' + line.split(' ')[1])
+            except Exception as e:
+                outs.append('err=' + type(e).__name__)
+            continue
         k = optarget(line)
         valid_k = k is not None and 0 <= k < len(U.S)
         pre_all = U.obs_all()
@@ -545,14 +604,38 @@ def run_ops(ops):
             interesting = True
         if op in RESEATING and err is None and had_views:
             interesting = True
+        if not solver_reported:
+            for j in range(len(U.S)):
+                w = U.probe_solvers(j, U.solver if (valid_k and j == k and err is None) else None)
+                if w:
+                    solver_reported = True
+                    fail('stale-solver:' + op, f'after `{line}`, stream {j}: {w}')
+                    break
         if not stale_reported:
             for j in range(len(U.S)):
-                w = U.probe_views(j)
+                w = U.probe_views(j, i)
                 if w:
                     stale_reported = True
                     fail('stale-view/shared-dict' if U.dict_shared(j) else 'stale-view', f'after `{line}`, stream {j}: {w}')
                     break
     return U, outs, failures, interesting
+
+
+def _has_cancelling(state):
+    """some row of some stream is non-empty but sums to zero, or some per-chemical total cancels across phases"""
+    try:
+        for part in state.split(' || '):
+            if 'rows=' not in part: continue
+            rows = part.split('rows=')[1].split(' ')[0].split(';')
+            vals = [[Fraction(x) for x in r.strip('[]').split(',')] for r in rows]
+            for v in vals:
+                if any(v) and sum(v) == 0: return True
+            for i in range(len(vals[0])):
+                col = [v[i] for v in vals]
+                if any(col) and sum(col) == 0: return True
+    except Exception:
+        return False
+    return False
 
 
 def run_impl(case: Case) -> ImplResult:
@@ -562,6 +645,13 @@ def run_impl(case: Case) -> ImplResult:
     for l, o in zip(case.ops, outs):
         if opkind(l) in CONVERSIONS and not o.startswith('err=') and o != 'dead':
             tags.append('conv:' + opkind(l))
+        t = l.split(' ')
+        if t[0] == 'sphases': tags.append('form:' + (t[3] if len(t) > 3 else 'tuple'))
+        if t[0] == 'chems': tags.append('chems:' + t[1])
+        if t[0] in ('new', 'wpar', 'wview') and any(x.startswith('-') and len(x) > 1
+                                                     for x in t[-1].replace(';', ',').replace(':', ',').split(',')):
+            tags.append('input:negative-flow')
+    if any('rows=' in o and _has_cancelling(o) for o in outs): tags.append('state:cancelling-row')
     return ImplResult(model_in=list(case.ops), outs=outs, failures=failures, tags=tags,
                       nontrivial=(tuple(case.ops) if interesting else None))
 
@@ -570,10 +660,23 @@ def run_impl(case: Case) -> ImplResult:
 # generation
 # --------------------------------------------------------------------------
 
-def dy(rng, zero=0.3):
-    """a non-negative dyadic flow"""
+def dy(rng, zero=0.3, neg=0.12):
+    """a signed dyadic flow (mostly positive)"""
     if rng.random() < zero: return 0.0
-    return rng.randrange(1, 257) / (1 << rng.randrange(0, 4))
+    x = rng.randrange(1, 257) / (1 << rng.randrange(0, 4))
+    return -x if rng.random() < neg else x
+
+
+def gen_row(rng):
+    """flows of one phase; sometimes a row that is non-empty but sums to zero"""
+    r = rng.random()
+    if r < 0.08 and N >= 2:
+        x = rng.randrange(1, 65) / (1 << rng.randrange(0, 3))
+        v = [0.0] * N
+        i, j = rng.sample(range(N), 2)
+        v[i], v[j] = x, -x
+        return v
+    return [dy(rng) for _ in range(N)]
 
 
 def gen_T(rng):
@@ -588,14 +691,23 @@ def gen_new(rng, multi=None):
     T, P = gen_T(rng), gen_P(rng)
     if multi is False or (multi is None and rng.random() < 0.35):
         p = rng.choice(PHASES if rng.random() < 0.5 else ['l', 'g', 'l', 's'])
-        fl = [dy(rng) for _ in range(N)]
+        fl = gen_row(rng)
         return f'new S {p} {T} {P} ' + ','.join(fr(x) for x in fl)
     m = rng.choice([2, 2, 3, 3, 4, 5])
     phases = sorted(rng.sample(PHASES, m)) if rng.random() < 0.6 else rng.choice([['g', 'l'], ['g', 'l', 's'], ['L', 'g', 'l']])
     parts = []
+    rows = {}
     for p in phases:
         if rng.random() < 0.55:
-            parts.append(p + ':' + ','.join(fr(dy(rng)) for _ in range(N)))
+            rows[p] = gen_row(rng)
+    if len(rows) >= 2 and rng.random() < 0.12:
+        # one chemical whose total cancels across two phases
+        a, b = rng.sample(sorted(rows), 2)
+        i = rng.randrange(N)
+        x = rng.randrange(1, 65) / 2
+        rows[a][i], rows[b][i] = x, -x
+    for p in phases:
+        if p in rows: parts.append(p + ':' + ','.join(fr(x) for x in rows[p]))
     return f'new M {",".join(phases)} {T} {P} ' + (';'.join(parts) if parts else '-')
 
 
@@ -703,7 +815,14 @@ def gen_op(rng, U):
     op = rng.choices(kinds, w)[0]
     if op == 'new': return gen_new(rng)
     if op == 'sphases':
-        return f'sphases {k} ' + ','.join(gen_target(rng, U, k))
+        labels = gen_target(rng, U, k)
+        form = rng.choice(['tuple', 'tuple', 'list', 'set', 'str', 'gen'])
+        if form != 'set' and rng.random() < 0.2:
+            labels = labels + [rng.choice(labels)]           # a duplicate label
+            rng.shuffle(labels)
+        elif form != 'tuple' and rng.random() < 0.5:
+            rng.shuffle(labels)                              # unsorted
+        return f'sphases {k} ' + ','.join(labels) + ('' if form == 'tuple' else ' ' + form)
     if op == 'sphase':
         if kd == 'S':
             return f'sphase {k} ' + rng.choice(PHASES)
@@ -757,6 +876,10 @@ def gen_op(rng, U):
 def gen_case(rng, length):
     U = Universe()
     ops = []
+    n = rng.choice([3, 3, 3, 2, 4])
+    if n != 3:
+        ops.append(f'chems {n}')
+        U.apply(ops[-1])
     nstreams = rng.choice([2, 2, 3, 3])
     for n in range(nstreams):
         ops.append(gen_new(rng, multi=(True if n == 0 else None)))
@@ -850,6 +973,20 @@ def corpus():
         # reduce_phases keeps a place for upper-case phases
         Case(['new M L,s 300 101325 L:0,0,95;s:225/4,0,0', 'reduce 0']),
         Case(['new M L,S,g 300 101325 S:1,0,0', 'asstream 0']),
+        # emptiness is "has an entry", not "has positive material": negative and cancelling rows move with their phase
+        Case(['new M g,l 300 101325 l:10,0,0;g:-1,1,0', 'sphases 0 g,l,s', 'reduce 0', 'sphases 0 l,g list']),
+        Case(['new M L,g,l 300 101325 L:3,-3,0;g:0,0,-2', 'reduce 0', 'asstream 0', 'sphases 0 l,s str']),
+        Case(['new S g 300 101325 1,-1,0', 'sphases 0 L,l', 'new M g,l 300 101325 g:2,0,0;l:-2,0,0', 'asstream 1', 'mix 0 1', 'mix 1 0,0']),
+        Case(['new M g,l 300 101325 l:4,0,0', 'view 0 l', 'wview 0 0 -4', 'wpar 0 g 0 4', 'save 0', 'sphase 0 g', 'restore 0 0']),
+        # phases= takes any iterable of labels
+        Case(['new M g,l 300 101325 l:4,0,0;g:0,2,0', 'sphases 0 g,l,s str', 'sphases 0 l,g,l list', 'sphases 0 s,l,g set',
+              'sphases 0 L,g,l,l gen', 'sphases 0 l,l list']),
+        # the equilibrium caches follow the stream
+        Case(['new M g,l 300 101325 l:4,0,0;g:0,2,0', 'vle 0', 'sphases 0 g,l,s', 'vle 0', 'lle 0', 'unlink 0', 'sle 0',
+              'new M L,g,l,s 350 90000 -', 'copylike 1 0', 'vle 1']),
+        Case(['chems 4', 'new M g,l 300 101325 l:4,0,1,-1;g:0,2,0,0', 'new S s 310 90000 0,0,0,5', 'view 0 l', 'mix 0 0,1', 'copylike 1 0',
+              'sphases 1 g,l gen']),
+        Case(['chems 2', 'new S l 300 101325 1,-1', 'vle 0', 'reduce 0', 'lle 0', 'asstream 0']),
         # unlink after a link: the views follow the stream to its own copy (4329d3a)
         Case(['new M g,l 300 101325 l:4,0,0;g:0,2,0', 'new M g,l 350 90000 l:1,0,0', 'view 0 l', 'link 0 1 1 1', 'unlink 0',
               'wpar 0 l 0 7', 'wT 0 333']),
